@@ -16,12 +16,13 @@ RULE = ("(insert, metamorphic, all 70 metrics) dataset X+ = X plus one extra loc
         "extra slice itself reports NaN for every metric and input, and no metric raises. (encode) the same dataset "
         "written as text with each missing token and as NetCDF with fill/-999/NaN/1e36 reads back with NaN exactly at "
         "the missing cells and gives identical csv scores. (readers) util.clean and Text._clean map every listed "
-        "encoding to NaN and every other value to itself. Non-trivial: the inserted slice has at least one cell with "
+        "encoding to NaN and every other value to itself. (quotient) with -C and zeros planted in the climatology every score is "
+        "bit-identical to the score of the dataset in which the climatology is missing at those cells. Non-trivial: the inserted slice has at least one cell with "
         "ordinary numbers in the non-victim inputs and X has a valid case left; distinct by hash of (X, insertion).")
 ASSUMPTIONS = [
     "scores are computed the way -type csv does (verif.output.Standard._get_x_y) on in-memory inputs for the insert oracle",
     "values above 1e30 are a NetCDF encoding of missing (util.clean); in text files the encodings are -999, nan and non-numeric tokens",
-    "non-finite climatology quotients are covered by C14",
+    "non-finite climatology quotients: metamorphic (quotient campaign) here, against the reference model in C14",
 ]
 
 POOL_AXES = {
@@ -297,6 +298,88 @@ def _isnum(s):
 
 
 # ------------------------------------------------------------------------------------------
+QUOT_AXES = ["no", "time", "leadtime", "location", "month"]
+
+
+def quotient_strategy(tier):
+    @st.composite
+    def s(draw):
+        spec = draw(gen.dataset(max_inputs=2, clim=True, flavor=draw(st.sampled_from(["det", "det", "prob"])), core_max=3,
+                                extra_max=1, allow_drop=False, allow_all_missing=False))
+        cf = spec["clim"]["fcst"]
+        cells = [(a, b, c) for a in range(len(cf)) for b in range(len(cf[a])) for c in range(len(cf[a][b]))]
+        zeros = draw(st.lists(st.sampled_from(cells), min_size=1, max_size=max(1, len(cells) // 3), unique=True))
+        for (a, b, c) in zeros:
+            cf[a][b][c] = 0.0
+        if tier == "thorough":
+            metrics = list(mrun.DET + mrun.THR + mrun.PTHR)
+        else:
+            metrics = draw(st.lists(st.sampled_from(mrun.DET + mrun.THR + mrun.PTHR), min_size=6, max_size=6, unique=True))
+        return {"spec": spec, "metrics": metrics, "agg": draw(st.sampled_from(mrun.AGGREGATORS))}
+    return s()
+
+
+def check_quotient(case, ctx):
+    """-C with zeros in the climatology: x/0 and 0/0 are non-finite, so those cases are missing; every score equals
+    the score of the same data with those cases deleted (here: the climatology value removed at those cells)."""
+    import numpy as np
+    from .. import mat
+    spec = case["spec"]
+    opts = {"clim_type": "divide"}
+    ds = model.DS(spec, opts)
+    if ds.empty:
+        ctx.label("empty")
+        return
+    spec2 = copy.deepcopy(spec)
+    spec2["clim"]["fcst"] = [[[None if v == 0 else v for v in row] for row in pl] for pl in spec["clim"]["fcst"]]
+    common = set(ds.coords())
+    cl = spec["clim"]
+    zero_cells = [(spec["times"][cl["ti"][a]], spec["leadtimes"][cl["li"][b]], spec["locs"][cl["si"][c]]["id"])
+                  for a in range(len(cl["fcst"])) for b in range(len(cl["fcst"][a])) for c in range(len(cl["fcst"][a][b]))
+                  if cl["fcst"][a][b][c] == 0]
+    hit = [z for z in zero_cells if z in common]
+    neg = False
+    for d in spec["inputs"]:
+        for name in ("obs", "fcst"):
+            if d.get(name) is None:
+                continue
+            for a, t in enumerate(d["ti"]):
+                for b, l in enumerate(d["li"]):
+                    for c, sidx in enumerate(d["si"]):
+                        v = d[name][a][b][c]
+                        if v is not None and v < 0 and (spec["times"][t], spec["leadtimes"][l], spec["locs"][sidx]["id"]) in hit:
+                            neg = True
+    if hit:
+        ctx.label("zero-on-common-case")
+        if neg:
+            ctx.label("negative-over-zero")
+        ctx.nt(("quotient", spec["times"], cl["fcst"], [d["fcst"] for d in spec["inputs"]], [d["obs"] for d in spec["inputs"]]))
+        ctx.sample({"clim_fcst": cl["fcst"], "zero_cells_on_common_cases": len(hit), "negative_over_zero": neg,
+                    "metrics": case.get("metrics", [case.get("metric")])[:6]})
+    sub = {k: case[k] for k in ("spec", "agg")}
+    for name in ([case["metric"]] if case.get("metric") else case["metrics"]):
+        args = mrun.args_for(spec, name)
+        if args is None:
+            continue
+        agg = case["agg"] if name in mrun.SUPPORTS_AGG else None
+        for axis in QUOT_AXES:
+            try:
+                y1 = mrun.scores(mat.make_data(spec, opts), name, axis, agg=agg, **args)
+                y2 = mrun.scores(mat.make_data(spec2, opts), name, axis, agg=agg, **args)
+            except (Exception, SystemExit) as e:
+                from ..runner import repo_frame_key
+                ctx.fail("C04/crash/quotient/%s/%s" % (name, repo_frame_key(e) or type(e).__name__), dict(sub, metric=name),
+                         "%s: %s" % (type(e).__name__, e))
+                break
+            ctx.evals += 1
+            if not cmpx.arrays_equal(y1, y2):
+                ctx.fail("C04/quotient/" + name, dict(sub, metric=name),
+                         "-C, -x %s: score with zeros in the climatology %r differs from the score with those cases deleted %r"
+                         % (axis, y1.tolist(), y2.tolist()))
+                break
+
+
+# ------------------------------------------------------------------------------------------
 def reader_items(tier):
     items = []
     for v in [-999.0, -999, float("nan"), 1.1e30, 1e36, float("inf"), 9.96921e36]:
@@ -356,4 +439,5 @@ def campaigns(tier):
         Enum("readers", reader_items, check_reader, "listed encodings and neighbouring ordinary values"),
         Hyp("insert", insert_strategy, check_insert, quick=480, thorough=4000, budget_quick=60, budget_thorough=1500),
         Hyp("encode", encode_strategy, check_encode, quick=160, thorough=4000, budget_quick=60, budget_thorough=1200),
+        Hyp("quotient", quotient_strategy, check_quotient, quick=240, thorough=3000, budget_quick=60, budget_thorough=1200),
     ]
